@@ -48,7 +48,18 @@ func (c12Sim) Decode(raw json.RawMessage) (interface{}, error) {
 
 func (c12Sim) Gen(prop, tier string, r *rand.Rand) interface{} {
 	l := genLayout(r, pick(r, "tiny", "small", "small", "edge", "four"))
+	huge := r.IntN(150) == 0
+	if huge {
+		// a response of more than a megabyte: one archive of 140 000 - 175 000 points
+		l = Layout{Archs: []Arch{{1, between(r, 140000, 175000)}}, Method: 1, Xff: 0.5}
+	}
 	c := &C12Case{Layout: l, Clock0: genClock0(r, l), SchedSeed: r.Uint64()}
+	if huge {
+		c.Files = []WFile{{Base: "src", Rel: "top.wsp", Layout: l, Fills: genFills(r, l, 1, 0.0001)}}
+		c.Cmds = []Cmd{{Kind: pick(r, "view", "view-raw"), Src: "top.wsp", Archive: -1}}
+		c.Adv = []int64{0}
+		return c
+	}
 	rels := []string{"top.wsp", "grp/it0/a.wsp", "grp/it0/b.wsp", "grp/it1/a.wsp", "grp/it1/c.wsp", "x y/sp ace.wsp"}
 	for _, rel := range rels {
 		if chance(r, 0.85) {
